@@ -33,6 +33,7 @@ fn explain(error_reference: &str) -> String {
         "invalid_size_specifier" => "Invalid size specifier",
         "invalid_type_specifier" => "Found an invalid type specifier",
         "invalid_time_specifier" => "Found an invalid time specifier",
+        "missing_argument" => "Expected an argument",
         "symbolic_permission_level" => "Found invalid symbolic permission level",
         "symbolic_permission_symbol" => "Enountered an invalid permission symbol",
         "unsigned_integer" => "Expected an unsigned integer",
@@ -150,7 +151,13 @@ impl ParserError {
             (Some(t), _, _, Some(d)) => SyntaxError::InvalidTestArgument(t, next, explain(&d)),
             (Some(t), _, _, None) => SyntaxError::InvalidTestUnknown(t, next),
             (_, Some(a), _, Some(d)) => SyntaxError::InvalidActionArgument(a, next, explain(&d)),
+            (_, Some(a), _, None) => {
+                SyntaxError::InvalidActionArgument(a, next, explain("missing_argument"))
+            }
             (_, _, Some(g), Some(d)) => SyntaxError::InvalidGlobalArgument(g, next, explain(&d)),
+            (_, _, Some(g), None) => {
+                SyntaxError::InvalidGlobalArgument(g, next, explain("missing_argument"))
+            }
             _ => SyntaxError::InvalidToken(next),
         }
         .into()
